@@ -81,7 +81,7 @@ def gen_chunks(tp: Tape, shape, bias_many=True):
 
 def gen_shape(tp: Tape, max_extent=12, ndim=None, allow_zero=True):
     if ndim is None:
-        ndim = tp.weighted([(0, 1), (1, 6), (2, 8), (3, 3), (4, 1)])
+        ndim = tp.weighted([(0, 1), (1, 5), (2, 7), (3, 4), (4, 2)])
     shape = []
     for _ in range(ndim):
         k = tp.weighted([("zero", 1 if allow_zero else 0), ("one", 2), ("small", 10), ("big", 6)])
@@ -347,7 +347,7 @@ def _where_gen(tp, c, a, b):
 reg("where", 3, _where_gen, lambda c, a, b, p: np.where(c, a, b),
     lambda c, a, b, p: _xp().where(c, a, b), tags=("elemwise",), weight=3)
 
-reg("clip", 1, lambda tp, a: dict(lo=tp.randint(-3, 1), hi=tp.randint(2, 6)) if _isnum(a) and a.dtype.kind != "u" and not (_isfloat(a) and np.isnan(a).any()) else None,
+reg("clip", 1, lambda tp, a: dict(lo=tp.choice([None, tp.randint(-3, 1)]) if tp.coin(1, 4) else tp.randint(-3, 1), hi=tp.randint(2, 6)) if _isnum(a) and a.dtype.kind != "u" and not (_isfloat(a) and np.isnan(a).any()) else None,
     lambda a, p: np.clip(a, p["lo"], p["hi"]),
     lambda a, p: _xp().clip(a, p["lo"], p["hi"]), tags=("elemwise",), weight=1)
 
@@ -380,6 +380,16 @@ def _gen_index(tp: Tape, a):
             used_array = True
             n = tp.randint(1, min(6, s + 2))
             idx.append(["a", [tp.randint(-s, s - 1) if tp.coin(1, 4) else tp.randint(0, s - 1) for _ in range(n)]])
+    # maybe an ellipsis instead of a run of full slices at either end
+    if tp.coin(1, 6):
+        if idx and idx[-1] == ["s", None, None, None]:
+            while idx and idx[-1] == ["s", None, None, None]:
+                idx.pop()
+            idx.append(["e"])
+        elif idx and idx[0] == ["s", None, None, None] and not any(e[0] == "a" for e in idx):
+            while idx and idx[0] == ["s", None, None, None]:
+                idx.pop(0)
+            idx.insert(0, ["e"])
     # maybe newaxis somewhere
     if tp.coin(1, 6):
         idx.insert(tp.randint(0, len(idx)), ["n"])
@@ -401,6 +411,8 @@ def _mk_index(idx, lib):
             out.append(e[1])
         elif e[0] == "n":
             out.append(None)
+        elif e[0] == "e":
+            out.append(Ellipsis)
         else:
             out.append(np.asarray(e[1], dtype=np.int64) if lib == "np" else list(e[1]))
     return tuple(out)
@@ -429,6 +441,8 @@ def _gen_concat(tp, *arrs):
     a = arrs[0]
     if a.ndim == 0:
         return None
+    if tp.coin(1, 8) and all(_np_result_ok(a, b) for b in arrs[1:]):
+        return dict(axis=None)  # flattens every input first
     for ax in tp.shuffle(range(a.ndim)):
         ok = all(b.ndim == a.ndim and all(b.shape[i] == a.shape[i] for i in range(a.ndim) if i != ax)
                  for b in arrs)
@@ -529,9 +543,22 @@ reg("permute_dims", 1, lambda tp, a: dict(axes=tp.shuffle(range(a.ndim))) if a.n
     lambda a, p: np.transpose(a, p["axes"]),
     lambda a, p: _xp().permute_dims(a, tuple(p["axes"])), weight=4, tags=("manip",))
 
-reg("moveaxis", 1, lambda tp, a: dict(src=tp.randint(-a.ndim, a.ndim - 1), dst=tp.randint(-a.ndim, a.ndim - 1)) if a.ndim >= 1 else None,
-    lambda a, p: np.moveaxis(a, p["src"], p["dst"]),
-    lambda a, p: _xp().moveaxis(a, p["src"], p["dst"]), weight=2, tags=("manip",))
+def _gen_moveaxis(tp, a):
+    if a.ndim < 1:
+        return None
+    if a.ndim >= 2 and tp.coin(1, 2):
+        k = tp.randint(2, a.ndim)
+        src = tp.sample(range(a.ndim), k)
+        dst = tp.sample(range(a.ndim), k)
+        if tp.coin(1, 3):
+            src = [x - a.ndim for x in src]
+        return dict(src=src, dst=dst)
+    return dict(src=tp.randint(-a.ndim, a.ndim - 1), dst=tp.randint(-a.ndim, a.ndim - 1))
+
+
+reg("moveaxis", 1, _gen_moveaxis,
+    lambda a, p: np.moveaxis(a, _tupleify(p["src"]), _tupleify(p["dst"])),
+    lambda a, p: _xp().moveaxis(a, _tupleify(p["src"]), _tupleify(p["dst"])), weight=5, tags=("manip",))
 
 reg("matrix_transpose", 1, lambda tp, a: {} if a.ndim >= 2 else None,
     lambda a, p: np.swapaxes(a, -1, -2), lambda a, p: _xp().matrix_transpose(a), weight=2, tags=("manip",))
@@ -650,6 +677,11 @@ def _gen_reduce(kinds):
         p = dict(axis=ax, keepdims=tp.coin(1, 3))
         if tp.coin(1, 3):
             p["split_every"] = tp.choice([2, 3, 4, 5])
+        elif a.ndim >= 2 and tp.coin(1, 4):
+            # per-axis fan-in (dict form), possibly covering only some of the reduced axes
+            axs = list(range(a.ndim)) if ax is None else ([ax % a.ndim] if isinstance(ax, int) else list(ax))
+            sel = [i for i in axs if tp.coin(2, 3)] or axs[:1]
+            p["split_every"] = {str(i): tp.choice([2, 3, 4]) for i in sel}
         return p
 
     return g
@@ -663,11 +695,16 @@ def _np_reduce(name):
     return f
 
 
+def _split_every(p):
+    se = p["split_every"]
+    return {int(k): v for k, v in se.items()} if isinstance(se, dict) else se
+
+
 def _cu_reduce(name):
     def f(a, p):
         kw = dict(axis=_tupleify(p["axis"]), keepdims=p["keepdims"])
         if "split_every" in p:
-            kw["split_every"] = p["split_every"]
+            kw["split_every"] = _split_every(p)
         return getattr(_xp(), name)(a, **kw)
 
     return f
@@ -704,7 +741,7 @@ reg("var", 1, _gen_var,
     lambda a, p: _np_var(a, p),
     lambda a, p: getattr(_xp(), p["fn"])(a, axis=_tupleify(p["axis"]), keepdims=p["keepdims"],
                                           correction=p["correction"],
-                                          **({"split_every": p["split_every"]} if "split_every" in p else {})),
+                                          **({"split_every": _split_every(p)} if "split_every" in p else {})),
     exact=False, weight=3, tags=("reduce",))
 
 
